@@ -30,6 +30,9 @@ var commonAssumptions = []string{
 	"statements whose only effect is on zerolog values are not part of the verified text (logging terminates and touches no program state; Fatal() exits with status 1)",
 	"pointer receivers are non-nil unless the contract says 'safety nil-receiver'",
 	"termination is not proved unless a 'decreases' clause is given",
+	"slices: element values have value semantics (a write through one slice value is not seen through another that shares its backing array); only the identity of the backing array is tracked, for shares(a, b)",
+	"maps, pointers and interface values are references into per-type heaps; two map-typed expressions of different Go types never alias",
+	"goroutines, channels operations, select, defer/recover, goto and labelled continue are outside the supported subset (a function using them is reported UNDECIDED, not verified)",
 }
 
 var props = map[string]*propInfo{}
